@@ -309,7 +309,13 @@ func reifyStruct(opts *options, orig reflect.Value, cfg *Config) Error {
 
 			if fInfo.tagOptions.squash {
 				vField := chaseValue(fInfo.value)
-				switch vField.Kind() {
+				kind := vField.Kind()
+				if kind == reflect.Ptr {
+					// a nil pointer: what matters is what it points to, which
+					// reifyInto allocates (Merge inlines through pointers too)
+					kind = chaseTypePointers(vField.Type()).Kind()
+				}
+				switch kind {
 				case reflect.Struct, reflect.Map:
 					if err := reifyInto(fInfo.options, fInfo.value, cfg); err != nil {
 						return err
